@@ -9,6 +9,7 @@
 Require Import AV.Lib.Base AV.H1.ConnRec AV.H1.ConnState AV.H1.ConnSpec AV.H1.ConnProofs.
 Require Import AV.H1.ConnGraceful AV.H1.ConnSeal AV.H1.ConnCtx AV.H1.ConnLocal AV.H1.ConnKeepAlive AV.H1.ConnQuiet.
 Require Import AV.Gen.ConnStateTables AV.H1.ConnTie.
+Require Import AV.H1.ConnExpect.
 
 (* TIE TO THE SOURCE TEXT. Gen/ConnStateTables.v is generated on every check from
    actix-http/src/h1/dispatcher.rs (tools/gen/conn_state.py): the statement lists with guards, in
@@ -221,6 +222,74 @@ Theorem C03_unread_at_error_body_end_closes : forall c s,
   close_unread s = true -> messages s = [] ->
   let s' := body_end_err c s in finished s' = true /\ (linger s' || shutdown s') = true /\ dstate s' = SNone.
 Proof. exact body_end_err_unread_closes. Qed.
+
+(* ---- Expect: 100-continue (State::ExpectCall), H1/ConnExpect.v ------------------------------- *)
+(* the Err arm of ExpectCall as the model runs it: the ServiceCall arm on a desugared reject script
+   IS [expect_err] (drop the request, send_error_response with the payload state as it is) *)
+Theorem C03_expect_err_arm_is_modelled : forall c f r st b p tl s,
+  dstate s = SService r -> hs_get (rq_id r) (hs s) = HFail st b p :: tl ->
+  poll_response (S f) c s = poll_response f c (expect_err c r st b p s).
+Proof. exact service_arm_is_expect_err. Qed.
+
+(* rejected while the (content-length) body is outstanding and nothing is queued: the error response
+   announces close; without a body the connection is FINISHED and lingers / shuts down, with a body
+   the state is SendErrorPayload with the payload still owned (decision repeated at its end:
+   C03_unread_at_error_body_end_closes) *)
+Theorem C03_expect_rejected_unread_closes : forall c r st b p s,
+  st <> 0 -> payload s <> None -> drainable s = false -> messages s = [] ->
+  let s' := expect_err c r st b p s in
+  trace s' = trace s ++ THead (Some r) st (c_v11 s) (c_head s) CClose :: (if b =? 0 then [TComplete] else []) /\
+  c_conn s' = CClose /\
+  (b = 0 -> finished s' = true /\ (linger s' || shutdown s') = true /\ dstate s' = SNone) /\
+  (b <> 0 -> dstate s' = SSendPayload (Some r) /\ berr s' = true /\ payload s' = payload s /\
+             drainable s' = false /\ messages s' = []).
+Proof. exact expect_reject_unread_closes. Qed.
+
+(* in every case (chunked body included) the Err arm leaves the body with the codec: payload sender,
+   payload decoder and read_buf untouched, and while the decoder is installed the decode loop
+   decodes no head (anything but body data stops it) *)
+Theorem C03_expect_rejected_body_stays_a_body : forall c r st b p s,
+  let s' := expect_err c r st b p s in
+  (payload s' = payload s /\ c_pl s' = c_pl s /\ drainable s' = drainable s /\ rbuf s' = rbuf s /\
+   reparsed s' = reparsed s) /\
+  (forall f upd it rest, c_pl s' = true -> rbuf s' = it :: rest ->
+     match it with IData _ | IEnd => True | _ => decode_loop (S f) c s' upd = (s', upd) end).
+Proof.
+  intros c r st b p s. split; [apply expect_reject_keeps_decoder|].
+  intros f upd it rest. apply inside_body_no_head.
+Qed.
+
+(* the unbounded theorems quantify over all handler scripts, hence over every run with expect
+   scripts (accept / reject / pending k polls): body discipline always, close-means-close outside F15 *)
+Theorem C03_expect_runs_covered : forall c hs ex es,
+  let s := run_events c es (init c (desugar ex hs)) in
+  ((payload s <> None -> c_pl s = true) /\ (payload s = None -> c_pl s = true -> read_disc s = true)) /\
+  (fx c = tree_fixes -> has_signal c = false -> ~ Known_F15 c (desugar ex hs) es ->
+   quiet_after_close (trace s) = true).
+Proof.
+  intros c hs ex es. split; [apply expect_body_discipline|apply expect_quiet_outside_F15].
+Qed.
+
+(* non-vacuity: `POST` with Expect and a 20-byte content-length body, rejected with 417 while only
+   the head has arrived, the client sends the body (and a request) anyway: close announced, LINGER,
+   body and follower discarded, nothing dispatched; chunked: kept alive, body drained to its exact
+   end, only then the follower is decoded *)
+Example C03_expect_example :
+  let c := mkCfg (KaTimeout 5000) 0 1000 true false tree_fixes in
+  let r0 := mkReq 0 false true ONone RBLen in
+  let q0 := mkReq 0 false true ONone RBChunked in
+  let r1 := mkReq 1 false true ONone RBNone in
+  let hs := desugar [XExpect 0 417 0 0; XNone] [[HRespond ONone 0 0]; [HRespond ONone 0 0]] in
+  let s := run_polls c [mkRound 0 [IReq r0] RPending false false false;
+                        mkRound 7 [IData 20; IEnd; IReq r1] RPending false false false] (init c hs) in
+  let z := run_polls c [mkRound 0 [IReq q0] RPending false false false;
+                        mkRound 7 [IData 20; IEnd; IReq r1] RPending false false false] (init c hs) in
+  trace s = [TDecode r0; TStart r0; THead (Some r0) 417 true false CClose; TComplete; TDiscard 3] /\
+  linger s = true /\
+  trace z = [TDecode q0; TStart q0; THead (Some q0) 417 true false CKeepAlive; TComplete;
+             TDecode r1; TStart r1; THead (Some r1) 200 true false CKeepAlive; TComplete; TKeepAlive] /\
+  reparsed z = false.
+Proof. vm_compute. repeat split; reflexivity. Qed.
 
 (* ---- LINGER drops what it reads --------------------------------------------------------------- *)
 Theorem C03_linger_discards : forall c wb s,
